@@ -12,17 +12,23 @@
                        fromJSON literal of e replaced by an expression of unknown value); `tc` is the
                        vector for the conformance harness with the predicted diagnostics.
 
-   Check takes a set `dv` of named deviations of the code from the intended design:
+   Check takes a set `dv` of named deviations from the design:
      "FilterAnyProp"   checkArrayDeref: `.*` on a closed object demands a property whose static type
                        is an object; a property typed `any` does not count (so making a property
-                       less precise introduces "has no object element").
-   With dv = {} the model is the intended design; with dv = AllDev it follows the code as read. *)
+                       less precise introduces "has no object element").  This was the behaviour of
+                       the pinned tree; it is fixed in /repo ("fix: object filter `.*` accepts an
+                       object whose properties have unknown type") and therefore DISABLED: the model
+                       of the code as read (dv = AllDev = {}) is the design.  The deviation stays
+                       named (KnownDev) for two uses: the guard run ExprSema_asread.cfg (TLC must
+                       find the counterexample on the model with the deviation) and the labelling of
+                       a regression (real outputs that equal the model with the deviation). *)
 EXTENDS ExprTypes, Json, SequencesExt
 
 CONSTANTS Size,      \* "quick" | "thorough": which alphabets the generator uses
           Fams       \* enabled generator families, subset of {"acc", "ctx", "use", "fj"}
 
-AllDev == {"FilterAnyProp"}
+AllDev == {}                      \* deviations of the code as read from the design: none
+KnownDev == {"FilterAnyProp"}     \* named, disabled (fixed in the code)
 
 ----------------------------------------------------------------------------
 (* Expressions *)
@@ -435,26 +441,27 @@ RECURSIVE ApplyAll(_, _, _)
 ApplyAll(ops, i, e) == IF i > Len(ops) THEN e ELSE ApplyAll(ops, i + 1, Apply(ops[i], e))
 ExprOf(root, ops) == ApplyAll(ops, 1, root)
 
-\* C06 on the intended design: accepted stays accepted (also where the value is spliced into a string);
-\* why it holds: the type of an accepted expression only loosens; a diagnostic can only appear where
-\* another one (which masked it by typing its operand any) went away; the code as read deviates from
-\* this only through the named deviation
-Verdicts(f, f1, f2, i1, i2) ==
-  [anymono  |-> (Accepted(i1) => Accepted(i2)),
-   tmplmono |-> (AcceptedInTemplate(i1) => AcceptedInTemplate(i2)),
-   typemono |-> (Accepted(i1) => Loosens(i1.ty, i2.ty)),
-   strong   |-> ((f # "fj") => (i2.errs \subseteq i1.errs \/ ~(i1.errs \subseteq i2.errs))),
-   devonly  |-> ((Accepted(f1) /\ ~Accepted(f2)) => \E x \in f2.errs : x.c = "filter-noobj"),
-   asread   |-> (Accepted(f1) => Accepted(f2))]
+\* C06 on the design (= the code as read, d1/d2): accepted stays accepted (also where the value is spliced
+\* into a string); why it holds: the type of an accepted expression only loosens; a diagnostic can only
+\* appear where another one (which masked it by typing its operand any) went away.  On the model with the
+\* disabled deviation (r1/r2) the only new diagnostics are "has no object element" (devonly), and
+\* any-monotonicity itself fails there (asread: the guard run expects TLC to find that).
+Verdicts(f, d1, d2, r1, r2) ==
+  [anymono  |-> (Accepted(d1) => Accepted(d2)),
+   tmplmono |-> (AcceptedInTemplate(d1) => AcceptedInTemplate(d2)),
+   typemono |-> (Accepted(d1) => Loosens(d1.ty, d2.ty)),
+   strong   |-> ((f # "fj") => (d2.errs \subseteq d1.errs \/ ~(d1.errs \subseteq d2.errs))),
+   devonly  |-> ((Accepted(r1) /\ ~Accepted(r2)) => \E x \in r2.errs : x.c = "filter-noobj"),
+   asread   |-> (Accepted(r1) => Accepted(r2))]
 
 Vector(i, ops) ==
   LET pr == PairSeq[i]
       b1 == ExprOf(pr.r1, ops)
       b2 == ExprOf(pr.r2, ops)
-      f1 == Run(b1, pr.g1, AllDev)
+      f1 == Run(b1, pr.g1, AllDev)       \* the code as read = the design (p, k)
       f2 == Run(b2, pr.g2, AllDev)
-      i1 == Run(b1, pr.g1, {})
-      i2 == Run(b2, pr.g2, {})
+      i1 == Run(b1, pr.g1, KnownDev)     \* the model with the disabled deviation (q, j): regression label
+      i2 == Run(b2, pr.g2, KnownDev)
       t1 == Render(b1)
       t2 == Render(b2)
       txt ==
@@ -465,7 +472,7 @@ Vector(i, ops) ==
                   q1 |-> i1.errs, q2 |-> i2.errs, j1 |-> i1.ty.k, j2 |-> i2.ty.k,
                   fam |-> pr.fam, g1 |-> pr.g1, g2 |-> pr.g2])
         ELSE IF i1.errs # f1.errs \/ i2.errs # f2.errs \/ i1.ty.k # f1.ty.k \/ i2.ty.k # f2.ty.k THEN
-          \* the intended design (q, j) predicts something else than the code as read (p, k)
+          \* the model with the disabled deviation (q, j) predicts something else than the code as read (p, k)
           ToJson([i |-> i, t1 |-> t1, t2 |-> (IF t2 = t1 THEN "" ELSE t2),
                   p1 |-> f1.errs, p2 |-> f2.errs, k1 |-> f1.ty.k, k2 |-> f2.ty.k,
                   q1 |-> i1.errs, q2 |-> i2.errs, j1 |-> i1.ty.k, j2 |-> i2.ty.k])
@@ -511,8 +518,8 @@ TmplMono == ok.tmplmono
 TypeMono == ok.typemono
 StrongMono == ok.strong
 DevOnlyFilter == ok.devonly
-\* NOT expected to hold: any-monotonicity of the model of the code as read (used as a self-test of the E layer:
-\* TLC must find the counterexample `matrix.*` that the named deviation FilterAnyProp stands for)
+\* NOT expected to hold: any-monotonicity of the model WITH the disabled deviation FilterAnyProp (guard of the
+\* E layer: TLC must find the counterexample `matrix.*` the deviation stands for)
 AnyMonoAsRead == ok.asread
 \* rendering and token arithmetic agree with the depth bound
 Bounded == Depth(e1) <= 6 /\ NT(e1) <= 40
